@@ -58,6 +58,12 @@ CLASS_TAG = {'Binding': 'binding', 'Bindings': 'bindings', 'Comment': 'comment',
              'Interface': 'interface', 'Namespace': 'namespace', 'Port': 'port', 'Ports': 'ports', 'Range': 'range',
              'Root': 'root', 'ScopeName': 'scope_name', 'Signature': 'signature', 'SubInt': 'subint',
              'System': 'system', 'Types': 'types'}
+# callees (besides parse_* and the ast constructors) a raw JSON value may be handed to: validated conversions and the class-tag
+# reader used for dispatch
+VERBATIM_OK = {'ns_ids_t': 'list of identifiers -> NamespaceIds (validates every identifier, keeps order)',
+               'NamespaceIds': 'the same, constructor form',
+               'get_class_value': 'reads the <class> tag of a nested element for dispatch; the element itself goes to its parser',
+               'isinstance': 'a test', 'len': 'a test', 'ElementHelper': 'wraps a nested element for checked access'}
 GETTERS = {'get_str_value', 'tryget_str_value', 'get_dict_value', 'tryget_dict_value', 'get_int_value', 'get_list_value'}
 
 
@@ -263,7 +269,7 @@ def check(ctx):
             it = ast.unparse(lp.iter)
             rec = [c for c in ast.walk(lp) if isinstance(c, ast.Call) and isinstance(c.func, ast.Attribute) and c.func.attr == 'parse_element']
             trees = [s for s in ns_branch if isinstance(s, ast.Assign) and isinstance(s.value, ast.Call) and getattr(s.value.func, 'id', '') == 'NamespaceTree']
-            nsvar = next((s.targets[0].id for s in ns_branch if isinstance(s, ast.Assign) and isinstance(s.value, ast.Call)
+            nsvar = next((ast.unparse(s.targets[0]) for s in ns_branch if isinstance(s, ast.Assign) and isinstance(s.value, ast.Call)
                           and getattr(s.value.func, 'id', '') == 'parse_namespace'), None)
             if rec and trees and nsvar:
                 tr = trees[0]
@@ -272,7 +278,7 @@ def check(ctx):
                 parent = kw.get('parent', pos[0] if pos else '')
                 scope = kw.get('scope_name', pos[1] if len(pos) > 1 else '')
                 pn = pe.params()[2].arg if len(pe.params()) > 2 else 'parent_ns'
-                sub = tr.targets[0].id
+                sub = ast.unparse(tr.targets[0])
                 ok = it == f'{nsvar}.elements' and parent == pn and scope == f'{nsvar}.scope_name.value' and \
                     len(rec) == 1 and [ast.unparse(a) for a in rec[0].args] == [getattr(lp.target, 'id', ''), sub] and \
                     len(lp.body) == 1
@@ -319,6 +325,7 @@ def check(ctx):
         run.error('C05.fields', jmod.name, '-', 'constructor sites', f'only {n_ctor} ast constructions found (29 confirmed)')
     run.floor('C05.fields', 60)
     run.floor('C05.order', 9)
+    _verbatim_rule(ctx, jmod, amod)
 
     # ---- C05.enums ----------------------------------------------------------------------------------------------------------------
     for fname, enum_name in (('parse_event_direction', 'EventDirection'), ('parse_formal_direction', 'FormalDirection'),
@@ -358,6 +365,73 @@ def check(ctx):
                 "absent -> False, 'injected' -> True, anything else raises" if ok else
                 'the injected flag is decoded with the wrong polarity / key')
     run.floor('C05.enums', 4)
+
+
+def _verbatim_rule(ctx, jmod, amod):
+    """C05.verbatim: what a getter reads from the document reaches the declaration through nothing but the parse functions
+    and the ast constructors: no string method, slice, arithmetic, conversion or other call in between (the field rule only
+    looks at WHICH key feeds a field, this rule at what happens to the value on the way)."""
+    run, prog = ctx.run, ctx.prog
+    n_sites = 0
+    for f in jmod.functions.values():
+        if f.cls is not None:
+            continue
+
+        def judge(node: ast.AST, origin: ast.Call, depth: int = 0):
+            # climb from `node` (which carries the JSON value) to its statement
+            child, p = node, prog.parent(node)
+            if isinstance(ctx.flow.enclosing_stmt(node), ast.Raise):
+                return          # quoted in an error message
+            while p is not None and not isinstance(p, ast.stmt):
+                bad = None
+                if isinstance(p, ast.Call):
+                    if p.func is child or any(x is child for x in ast.walk(p.func)):
+                        bad = f'changed by `.{getattr(p.func, "attr", "?")}(...)`'
+                    else:
+                        sym = prog.resolve_expr_symbol(f.module, p.func)
+                        ok_callee = (isinstance(sym, ClassInfo) and sym.module is amod) or \
+                            (isinstance(sym, FuncInfo) and sym.module is jmod and sym.name.startswith('parse_')) or \
+                            (isinstance(p.func, ast.Attribute) and p.func.attr == 'append')
+                        if ok_callee:
+                            return      # from here on it is a declaration (or a validated value object), not the raw value
+                        if getattr(p.func, 'id', '') in VERBATIM_OK:
+                            return
+                        bad = f'passed through `{ast.unparse(p.func)[:40]}(...)`'
+                elif isinstance(p, (ast.Subscript, ast.BinOp, ast.JoinedStr, ast.FormattedValue, ast.UnaryOp, ast.Compare)):
+                    if not (isinstance(p, ast.Compare) or (isinstance(p, ast.UnaryOp) and isinstance(p.op, ast.Not))):
+                        bad = f'used in `{ast.unparse(p)[:50]}`'
+                    else:
+                        return      # a test on the value, not the value
+                elif isinstance(p, ast.IfExp) and child is p.test:
+                    return
+                if bad:
+                    key = origin.args[0].value if origin.args and isinstance(origin.args[0], ast.Constant) else '?'
+                    run.violation('C05.verbatim', f.module.name, f.qualname, p,
+                                  f"the value read from JSON key '{key}' is {bad} before it is stored: the declaration no longer "
+                                  f"carries what the document says", node=p)
+                    return
+                child, p = p, prog.parent(p)
+            if isinstance(p, (ast.Assign, ast.AnnAssign)) and depth < 4:
+                tg = p.targets[0] if isinstance(p, ast.Assign) else p.target
+                if isinstance(tg, ast.Name) and p.value is not None and any(x is node for x in ast.walk(p.value)):
+                    for u in iter_own_nodes(f.node):
+                        if isinstance(u, ast.Name) and u.id == tg.id and isinstance(u.ctx, ast.Load):
+                            judge(u, origin, depth + 1)
+            elif isinstance(p, (ast.For,)) and child is p.iter and isinstance(p.target, ast.Name) and depth < 4:
+                for u in iter_own_nodes(f.node):
+                    if isinstance(u, ast.Name) and u.id == p.target.id and isinstance(u.ctx, ast.Load):
+                        judge(u, origin, depth + 1)
+
+        for c in iter_own_nodes(f.node):
+            if isinstance(c, ast.Call) and isinstance(c.func, ast.Attribute) and c.func.attr in GETTERS:
+                n_sites += 1
+                before = len(run.violations) if hasattr(run, 'violations') else 0
+                judge(c, c)
+                run.holds('C05.verbatim', f.module.name, f.qualname, c, 'getter result examined on its way into the declaration',
+                          node=c, nontrivial=False)
+    run.stats['getter_sites'] = n_sites
+    if n_sites < 50:
+        run.error('C05.verbatim', jmod.name, '-', 'getter sites', f'only {n_sites} getter calls found (55 confirmed)')
 
 
 def _class_chain(fn: FuncInfo, var: Optional[str]):
